@@ -20,27 +20,28 @@ type histProfile struct {
 	mutShare                                                     []float64
 	crlP, ocspP                                                  float64
 	errFilterP                                                   float64
+	synthP                                                       float64
 }
 
 func profileFor(prop string) histProfile {
 	switch prop {
 	case "C07":
 		return histProfile{wLint: 30, wRepeat: 0, wFilter: 30, wSetCfg: 3, wRead: 2, wPattern: 35, wDefaultCfg: 0,
-			cfgClasses: []string{"neutral", "option"}, cfgMin: 0, cfgMax: 1, mutShare: []float64{0, 0.1, 0.3}, crlP: 0.3, ocspP: 0.15, errFilterP: 0.03}
+			cfgClasses: []string{"neutral", "option"}, cfgMin: 0, cfgMax: 1, mutShare: []float64{0, 0.1, 0.3}, crlP: 0.3, ocspP: 0.15, errFilterP: 0.03, synthP: 0.3}
 	case "C08":
 		return histProfile{wLint: 10, wRepeat: 0, wFilter: 45, wSetCfg: 12, wRead: 25, wPattern: 8, wDefaultCfg: 0,
 			cfgClasses: []string{"neutral", "option", "empty"}, cfgMin: 1, cfgMax: 3, mutShare: []float64{0}, crlP: 0.3, ocspP: 0.2, errFilterP: 0.25}
 	case "C11":
 		return histProfile{wLint: 35, wRepeat: 0, wFilter: 8, wSetCfg: 22, wRead: 3, wPattern: 25, wDefaultCfg: 7,
 			cfgClasses: []string{"empty", "neutral", "neutral", "example", "option", "option", "option", "illtyped", "illtyped", "illtyped", "odd"},
-			cfgMin: 2, cfgMax: 5, mutShare: []float64{0, 0.1}, crlP: 0.6, ocspP: 0.3, errFilterP: 0.02}
+			cfgMin: 2, cfgMax: 5, mutShare: []float64{0, 0.1}, crlP: 0.6, ocspP: 0.3, errFilterP: 0.02, synthP: 0.15}
 	case "C01":
 		return histProfile{wLint: 55, wRepeat: 0, wFilter: 20, wSetCfg: 6, wRead: 4, wPattern: 15, wDefaultCfg: 0,
-			cfgClasses: []string{"neutral", "option", "illtyped"}, cfgMin: 0, cfgMax: 2, mutShare: []float64{0.3, 0.5, 0.8}, crlP: 0.5, ocspP: 0.3, errFilterP: 0.05}
+			cfgClasses: []string{"neutral", "option", "illtyped"}, cfgMin: 0, cfgMax: 2, mutShare: []float64{0.3, 0.5, 0.8}, crlP: 0.5, ocspP: 0.3, errFilterP: 0.05, synthP: 0.4}
 	}
 	// C05
 	return histProfile{wLint: 40, wRepeat: 8, wFilter: 8, wSetCfg: 6, wRead: 8, wPattern: 30, wDefaultCfg: 1,
-		cfgClasses: []string{"neutral", "option", "option", "example"}, cfgMin: 0, cfgMax: 3, mutShare: []float64{0, 0, 0.15, 0.3}, crlP: 0.35, ocspP: 0.15, errFilterP: 0.03}
+		cfgClasses: []string{"neutral", "option", "option", "example"}, cfgMin: 0, cfgMax: 3, mutShare: []float64{0, 0, 0.15, 0.3}, crlP: 0.35, ocspP: 0.15, errFilterP: 0.03, synthP: 0.25}
 }
 
 type histGen struct {
@@ -56,6 +57,8 @@ type histGen struct {
 
 func genHist(seed uint64, prop, tier string, audit bool, mode string) *Plan {
 	switch {
+	case strings.HasPrefix(mode, "synthsweep"):
+		return genSynthSweep(seed, prop, tier, mode)
 	case strings.HasPrefix(mode, "sweep"):
 		return genSweep(seed, prop, tier, mode)
 	case strings.HasPrefix(mode, "tornsweep"):
@@ -104,6 +107,7 @@ func genHist(seed uint64, prop, tier string, audit bool, mode string) *Plan {
 		if o == nil {
 			die(2, "corpus yields no parseable object")
 		}
+		o = maybeSynth(g, idx, o, prof.synthP)
 		if g.Chance(mut) {
 			if g.Chance(0.7) {
 				if v := flipVariant(g, o); v != nil {
